@@ -68,3 +68,60 @@ def welldefined(spec, P, EQ, AND, TRUE, FALSE):
                 if a["sign"] is not None:
                     conj.append(EQ(P(a["sign"]), P(b["sign"])))
     return AND(conj) if conj else TRUE
+
+
+def welldefined_objects(is_leaf, root, P, EQ, AND, TRUE, FALSE):
+    """same predicate, but over a BUILT object graph, so that auto-generated ids are the real ones (two different
+    sub-propositions may receive the same generated id).  is_leaf(node) -> bool.  Numeric fields go through P."""
+    nodes, seen = [], set()
+
+    def walk(n):
+        if id(n) in seen:
+            return
+        seen.add(id(n))
+        nodes.append(n)
+        if not is_leaf(n):
+            for c in n.propositions:
+                walk(c)
+    walk(root)
+    # duplicate child ids under one node
+    for n in nodes:
+        if not is_leaf(n):
+            ids = [c.id for c in n.propositions]
+            if len(set(ids)) != len(ids):
+                return FALSE
+    # cycles in the id graph
+    graph = {}
+    for n in nodes:
+        if not is_leaf(n):
+            graph.setdefault(n.id, set()).update(c.id for c in n.propositions)
+    state = {}
+
+    def dfs(u):
+        state[u] = 1
+        for v in graph.get(u, ()):
+            if state.get(v) == 1:
+                return True
+            if state.get(v) is None and dfs(v):
+                return True
+        state[u] = 2
+        return False
+    for u in list(graph):
+        if state.get(u) is None and dfs(u):
+            return FALSE
+    conj = []
+    for i in range(len(nodes)):
+        for j in range(i + 1, len(nodes)):
+            a, b = nodes[i], nodes[j]
+            if a.id != b.id:
+                continue
+            if is_leaf(a) != is_leaf(b):
+                return FALSE
+            conj.append(EQ(P(a.bounds.lower), P(b.bounds.lower)))
+            conj.append(EQ(P(a.bounds.upper), P(b.bounds.upper)))
+            if not is_leaf(a):
+                if [c.id for c in a.propositions] != [c.id for c in b.propositions]:
+                    return FALSE
+                conj.append(EQ(P(a.sign), P(b.sign)))
+                conj.append(EQ(P(a.value), P(b.value)))
+    return AND(conj) if conj else TRUE
